@@ -78,7 +78,9 @@ fn unhex(s: &str) -> Vec<u8> {
 
 fn main() {
     assert_eq!(std::mem::size_of::<usize>(), 8, "the model assumes a 64-bit target");
-    std::panic::set_hook(Box::new(|_| {}));
+    if std::env::var_os("VERIF_PANIC_MSG").is_none() {
+        std::panic::set_hook(Box::new(|_| {}));
+    }
     let args: Vec<String> = std::env::args().collect();
     if let Some(d) = arg_s(&args, "--deep") {
         deep(d.parse().unwrap());
